@@ -57,6 +57,13 @@ claim("C20",
       "Crash-freedom and tag-preservation clauses only: BOUND proves every index into lists from the parsed file is length-guarded; the tag rewrite and tags.Set are dominated by 'no plenc tag present' and only the constant key plenc is set; new indexes are running max + 1, carried forward, starting from the maximum of a completed first pass. Formatting, compilability, idempotence and multi-name fields are not decided.",
       "SSA linear-fact bounds analysis + dominance/dataflow rules on cmd/plenctag")
 
+claim("C02",
+      "Decides the shape of the bytes every shipped encoder emits, for all values at once: each codec's Append is evaluated symbolically into an emission term and compared with a specification of the documented format written independently in the checker (tag · zig-zag/plain varint, little-endian floats, [tag·len]·bytes, framed time fields 1/2, framed non-omitted struct fields in declaration order with precomputed tags, packed scalar slices, tag·count·(len·elem)* for counted slices and maps with key=1/value=2), every length prefix being Φ of what follows; plus wire-type constants, tag layout, signed=unsigned∘zig-zag, field order and order-independent decode loop. A change applied consistently to Append, Size and Read still changes the term. Numerics of the varint primitives are not decided.",
+      "symbolic effect summaries of encoder bodies over the typed AST compared with an independent format specification; constant/table agreement rules")
+claim("C05",
+      "Decides the Size/Append/framing laws for all 28 codecs and the JSON value functions: Size(ptr,tag) is syntactically equal (after AC-normalisation) to Φ(Append(data,ptr,tag)) - reported size = appended bytes for all values with and without tag and, by induction over sub-codec atoms, for all nestings; a length-delimited codec's tagged form is tag · varuint(Φ(body)) · body; Append and Size come from the same type; all pointer-taking methods agree on the memory type; the two lemmas used (fixed-width Size ignores ptr, SizeVarUint(v)=1 for v<0x80) are checked against the code. 'Read consumes exactly its length' is not decided.",
+      "symbolic effect summaries (emission/size terms) of encoder bodies over the typed AST with term equality modulo AC")
+
 for _i in range(1, 21):
     _id = "C%02d" % _i
     if _id not in CLAIMS:
